@@ -12,6 +12,7 @@ mod dom;
 mod dump;
 mod lift;
 mod desugar;
+mod taint;
 mod tables;
 
 pub fn with_catch<F: FnOnce() -> String + panic::UnwindSafe>(f: F) -> String {
@@ -94,6 +95,13 @@ fn main() {
             for line in stdin.lock().lines() {
                 let line = line.unwrap();
                 let reply = with_catch(move || desugar::handle(&line));
+                writeln!(out, "{}", reply).unwrap();
+            }
+        }
+        "taint" => {
+            for line in stdin.lock().lines() {
+                let line = line.unwrap();
+                let reply = with_catch(move || taint::handle(&line));
                 writeln!(out, "{}", reply).unwrap();
             }
         }
